@@ -27,6 +27,7 @@ from .lib.paths import strip
 from .lib.value import vstr, walk
 from . import layer_env_common as L
 
+SBOM_PATH = "libcnb::sbom::cnb_sbom_path"
 RT = 'libcnb::runtime::libcnb_runtime'
 RD = 'libcnb::runtime::libcnb_runtime_detect'
 RB = 'libcnb::runtime::libcnb_runtime_build'
@@ -64,6 +65,9 @@ def run(ctx, rep):
                  ('R7', 'mandatory environment and inputs are read and propagated before detect/build')):
         rep.rule(r, d)
     rep.not_decided = ['that process::exit terminates', 'byte-exact contents of written files', 'behaviour of the user\'s detect/build']
+    from . import layer_roles
+    global SBOM_PATH
+    SBOM_PATH = layer_roles.roles(prog, sl)['SBOM_PATH'] or 'libcnb::sbom::cnb_sbom_path'
     E = Effects(prog, sl)
     rt, rd, rb = prog.fn(RT), prog.fn(RD), prog.fn(RB)
     for f in (rt, rd, rb):
@@ -301,7 +305,7 @@ def run(ctx, rep):
             ok = bool(some) and data_ok and must_pass(rb, some[0].target, site.bb, top.bb) and verdict(result_fates(prog, top.fn, top)) == 'ok'
             rep.check(ok, 'R4', 'build/' + fname, e.where(), '%s written iff result.%s is Some, error propagated' % (fname, fld),
                       '%s: guarded_by_Some(%s)=%s data_from_result=%s' % (fname, fld, bool(some), data_ok))
-        sb = [e for e in o.must if e.kind == 'WRITE' and e.forall is not None and strip(e.path)[0] == 'call' and strip(e.path)[1] == 'libcnb::sbom::cnb_sbom_path']
+        sb = [e for e in o.must if e.kind == 'WRITE' and e.forall is not None and strip(e.path)[0] == 'call' and strip(e.path)[1] == SBOM_PATH]
         got = {}
         for e in sb:
             pv = strip(e.path)
